@@ -7,8 +7,10 @@ import (
 	"encoding/binary"
 	"encoding/hex"
 	"fmt"
+	"os"
 	"sort"
 	"strings"
+	"time"
 )
 
 // ---------------------------------------------------------------------------------------------
@@ -194,6 +196,8 @@ type Log struct {
 	MaxKeep int
 }
 
+var liveLog = os.Getenv("VERIF_LIVE_LOG") != ""
+
 func (l *Log) Add(format string, a ...any) {
 	s := fmt.Sprintf(format, a...)
 	hh := sha256.New()
@@ -201,6 +205,9 @@ func (l *Log) Add(format string, a ...any) {
 	hh.Write([]byte(s))
 	copy(l.h[:], hh.Sum(nil))
 	l.N++
+	if liveLog {
+		fmt.Fprintf(os.Stderr, "[%s] %s\n", time.Now().Format("15:04:05.000"), s) // debugging aid only (VERIF_LIVE_LOG); never part of a check
+	}
 	if l.Keep && (l.MaxKeep == 0 || len(l.Lines) < l.MaxKeep) {
 		l.Lines = append(l.Lines, s)
 	}
